@@ -92,6 +92,13 @@ def boundary_jdes(rng, n_years):
                 if b < 0 or b > JMAX: continue
                 out += [b, nxt(b), nxt(b, -1), nxt(b, 2), nxt(b, -2)]
                 out += [b + d for d in deltas] + [b - d for d in deltas]
+    # hour / minute / second boundaries inside a day (carry errors: second = 60.0, minute = 60, hour = 24),
+    # at small JDE (fine float grid: the fraction comes within 1e-10 s of the boundary) and large JDE
+    for z in [0, 1, 16, 31, 59, 365, 1000] + [rng.randint(0, 5399999) for _ in range(n_years)]:
+        for k in [60 * rng.randint(1, 23), rng.randint(1, 1439), 1439, 1]:
+            for b in (z - 0.5 + k / 1440.0, z - 0.5 + (60 * k + rng.randint(1, 59)) / 86400.0):
+                if 0 <= b <= JMAX:
+                    out += [b, nxt(b), nxt(b, -1), nxt(b, -2), b - 1e-9, b + 1e-9, b - 1e-12]
     for b in (2299160.5, 2299159.5, 2299161.5, 2299160.0):
         out += [b, nxt(b), nxt(b, -1)] + [b + d for d in deltas] + [b - d for d in deltas]
     out += [0.0, 0.5, 1.0, nxt(0.5, -1), JMAX, nxt(JMAX, -1), 2451545.0, 2400000.5]
